@@ -266,22 +266,30 @@ package log
 // <k>.log (openSegment maps whatever is there; an empty file cannot be mapped and log.Open would fail on
 // every restart). fdone[p] (ghost, see the snapshot contracts): the file at p is complete and closed.
 // T-fs (trusted): Truncate / WriteAt / Sync on an open handle do not change which names exist.
-//@ func (*os.File).Truncate
+// fcap[p] (ghost): the length the file at p was given by Truncate; a WriteAt inside it keeps it (C13: a segment
+// file has exactly the configured size, its offset table is addressed from the END of the file)
+//@ ghost var fcap map[uint64]int
+//@ func (*os.File).Truncate params(f, size)
 //@   trusted
-//@ func (*os.File).WriteAt
+//@   modifies fcap
+//@   ensures result0 == nil ==> fcap[f.gpath] == size
+//@   ensures forall(p, p != f.gpath ==> fcap[p] == old(fcap[p]))
+//@ func (*os.File).WriteAt params(f, b, off)
 //@   trusted
+//@   requires [C13.write-inside-file] 0 <= off && off + len(b) <= fcap[f.gpath]
 //@ func (*os.File).Sync
 //@   trusted
 
 // T-fs (trusted view for this caller): rename is atomic and carries the file (its completeness) to the new name
 //@ view os.Rename at log.createSegment
-//@   modifies fs, fdone, fsize
-//@   ensures result0 == nil ==> old(fs[oldpath]) && fs[newpath] && !fs[oldpath] && fdone[newpath] == old(fdone[oldpath]) && forall(p, p != newpath && p != oldpath ==> fs[p] == old(fs[p]) && fdone[p] == old(fdone[p]))
-//@   ensures result0 != nil ==> fs == old(fs) && fdone == old(fdone)
+//@   modifies fs, fdone, fsize, fcap
+//@   ensures result0 == nil ==> old(fs[oldpath]) && fs[newpath] && !fs[oldpath] && fdone[newpath] == old(fdone[oldpath]) && fcap[newpath] == old(fcap[oldpath]) && forall(p, p != newpath && p != oldpath ==> fs[p] == old(fs[p]) && fdone[p] == old(fdone[p]) && fcap[p] == old(fcap[p]))
+//@   ensures result0 != nil ==> fs == old(fs) && fdone == old(fdone) && fcap == old(fcap)
 
 //@ func createSegment params(name, opt)
 //@   props C10 C13 C14
-//@   requires !fs[name]
-//@   modifies fs, fdone, fsize
+//@   requires !fs[name] && opt.SegmentSize >= 16
+//@   modifies fs, fdone, fsize, fcap
 //@   ensures [C14.create-complete] result0 == nil ==> fs[name] && fdone[name]
+//@   ensures [C13+C14.segment-size] result0 == nil ==> fcap[name] == opt.SegmentSize
 //@   crash_inv [C14+C10.create-atomic] !fs[name] || fdone[name]
